@@ -26,6 +26,7 @@ import (
 	"strconv"
 	"strings"
 	"sync"
+	"syscall"
 	"testing"
 	"time"
 
@@ -34,8 +35,8 @@ import (
 
 // Result classifies one executed case.
 type Result struct {
-	Classes    []string // labels counted in the class histogram
-	Nontrivial bool     // by the Spec's Rule
+	Classes    []string         // labels counted in the class histogram
+	Nontrivial bool             // by the Spec's Rule
 	Counts     map[string]int64 // additive counters (e.g. field checks)
 }
 
@@ -106,15 +107,15 @@ func (r *specRunner[C]) property() string { return r.s.Property }
 // ---- environment ----------------------------------------------------------
 
 type envT struct {
-	tier     string
-	seed     uint64
-	shard    int
-	nshards  int
-	statsDir string
+	tier      string
+	seed      uint64
+	shard     int
+	nshards   int
+	statsDir  string
 	replayOut string
-	journal  string
-	known    []KnownFinding
-	scale    float64
+	journal   string
+	known     []KnownFinding
+	scale     float64
 }
 
 type KnownFinding struct {
@@ -185,20 +186,20 @@ func hashStr(s string) uint64 {
 // ---- stats ------------------------------------------------------------------
 
 type SubStats struct {
-	Property    string           `json:"property"`
-	Name        string           `json:"name"`
-	Rule        string           `json:"rule"`
-	Seed        uint64           `json:"rapid_seed"`
-	Evaluations int64            `json:"evaluations"`
-	Nontrivial  int64            `json:"nontrivial"`
-	Hashes      []uint64         `json:"hashes"` // distinct hashes of non-trivial cases
-	Classes     map[string]int64 `json:"classes"`
-	Counts      map[string]int64 `json:"counts"`
+	Property    string            `json:"property"`
+	Name        string            `json:"name"`
+	Rule        string            `json:"rule"`
+	Seed        uint64            `json:"rapid_seed"`
+	Evaluations int64             `json:"evaluations"`
+	Nontrivial  int64             `json:"nontrivial"`
+	Hashes      []uint64          `json:"hashes"` // distinct hashes of non-trivial cases
+	Classes     map[string]int64  `json:"classes"`
+	Counts      map[string]int64  `json:"counts"`
 	Samples     []json.RawMessage `json:"samples"`
-	KnownHits   map[string]int64 `json:"known_hits"`
-	Failed      bool             `json:"failed"`
-	FailSig     string           `json:"fail_sig,omitempty"`
-	WallS       float64          `json:"wall_s"`
+	KnownHits   map[string]int64  `json:"known_hits"`
+	Failed      bool              `json:"failed"`
+	FailSig     string            `json:"fail_sig,omitempty"`
+	WallS       float64           `json:"wall_s"`
 
 	hashSet map[uint64]struct{}
 }
@@ -457,6 +458,38 @@ func WithDeadline(d time.Duration, f func()) bool {
 	case <-tm.C:
 		return false
 	}
+}
+
+// WithCPUBudget runs f and reports whether it returned before the process had burnt d of processor time (or 8*d of
+// wall-clock time had passed).  For computations that never block, an endless loop shows as processor time; measuring
+// that instead of the wall clock keeps the verdict independent of how busy the machine is.
+func WithCPUBudget(d time.Duration, f func()) bool {
+	done := make(chan struct{})
+	go func() {
+		defer close(done)
+		f()
+	}()
+	cpu0, t0 := cpuTime(), time.Now()
+	tick := time.NewTicker(200 * time.Millisecond)
+	defer tick.Stop()
+	for {
+		select {
+		case <-done:
+			return true
+		case <-tick.C:
+			if cpuTime()-cpu0 > d || time.Since(t0) > 8*d {
+				return false
+			}
+		}
+	}
+}
+
+func cpuTime() time.Duration {
+	var ru syscall.Rusage
+	if err := syscall.Getrusage(syscall.RUSAGE_SELF, &ru); err != nil {
+		return 0
+	}
+	return time.Duration(ru.Utime.Nano() + ru.Stime.Nano())
 }
 
 // Tier returns "quick" or "thorough".
